@@ -266,6 +266,8 @@ class Run:
             omitted = declared[-1]
             opts.pop(omitted, None)
         opts.update({"to": self.model["steps"][0]["id"], "ecode": "e1", "message": "boom", "uses": "acts.core.irq", "key": "pushed"})
+        if getattr(self.cfg, "bad_to", False):
+            opts["to"] = "no_such_step"   # a back aimed at a step that is not in the act's history must be refused without any effect
         before = self.snapshot()
         self.current_action = dict(tid=t["tid"], nid=t["nid"], state=t["state"], kind=t["kind"], ev=ev, omitted=omitted)
         nmsg = len(W.messages)
@@ -519,10 +521,11 @@ class Run:
                     hs = d
                     while hs is not None and self.parent_of(hs, by_tid) is not None and self.parent_of(hs, by_tid)["tid"] != q["tid"]:
                         hs = self.parent_of(hs, by_tid)
+                    # handler created (entry "new") before the act's terminal state became visible (entry "set_state_done")?
                     ev = self.trace_events()
-                    i_started = next((i for i, (tid, st) in enumerate(ev) if tid == (hs or d)["tid"]), None)
-                    i_closed = next((i for i, (tid, st) in enumerate(ev) if tid == q["tid"] and st in TERMINAL), None)
-                    before = i_started is not None and i_closed is not None and i_started < i_closed
+                    i_started = next((i for i, (tid, st, how) in enumerate(ev) if tid == (hs or d)["tid"]), None)
+                    i_closed = next((i for i, (tid, st, how) in enumerate(ev) if tid == q["tid"] and st in TERMINAL and how in ("set_state_done", "set_pure_state")), None)
+                    before = i_started is not None and (i_closed is None or i_started < i_closed)
                     return "timeout-handler-open-under-closed-act" if before else "timeout-handler-started-under-closed-act"
             q = self.parent_of(q, by_tid)
         # skip marks the siblings of the skipped act Skipped, but not what runs beneath them (e.g. a fired timeout handler step with an open act)
@@ -561,7 +564,7 @@ class Run:
 
     def trace_events(self):
         """(tid, new state name) of every state write so far, in order."""
-        return [(e["tid"], STATE_NAMES[e["new"]] if isinstance(e["new"], int) else e["new"]) for e in (self.W.trace or [])]
+        return [(e["tid"], STATE_NAMES[e["new"]] if isinstance(e["new"], int) else e["new"], e.get("how")) for e in (self.W.trace or [])]
 
     def in_catch_subtree(self, nid):
         def walk(n, inside):
@@ -1268,7 +1271,7 @@ class ReplayRun(Run):
         return None
 
     def trace_events(self):
-        return [(e["tid"], e["new"]) for e in (self.obs.get("trace") or [])]
+        return [(e["tid"], e["new"], e.get("how")) for e in (self.obs.get("trace") or [])]
 
     def q_c02(self, where):
         pass
